@@ -226,15 +226,21 @@ theorem c07_assert_not_is_instance : Correct "assert_not_is_instance" cond_asser
 
 theorem c07_assert_equal : Correct "assert_equal" cond_assert_equal := by
   refine correct_of _ _ _ rfl fun c hc => ?_
-  unfold cond_assert_equal
-  rw [eval_or_errors2 c _ hc]
-  exact evalOutcome_not c _ _ (eval_equalityTest_params c)
+  first
+    | (unfold cond_assert_equal
+       rw [eval_or_errors2 c _ hc]
+       exact evalOutcome_not c _ _ (eval_equalityTest_params c))
+    -- the same condition without its own `errors(left, right) or` (redundant under the guard)
+    | exact evalOutcome_not c _ _ (eval_equalityTest_params c)
 
 theorem c07_assert_almost_equal : Correct "assert_almost_equal" cond_assert_almost_equal := by
   refine correct_of _ _ _ rfl fun c hc => ?_
-  unfold cond_assert_almost_equal
-  rw [eval_or_errors2 c _ hc]
-  exact evalOutcome_not c _ _ (eval_equalityTest_params c)
+  first
+    | (unfold cond_assert_almost_equal
+       rw [eval_or_errors2 c _ hc]
+       exact evalOutcome_not c _ _ (eval_equalityTest_params c))
+    -- the same condition without its own `errors(left, right) or` (redundant under the guard)
+    | exact evalOutcome_not c _ _ (eval_equalityTest_params c)
 
 theorem c07_assert_not_equal : Correct "assert_not_equal" cond_assert_not_equal := by
   refine correct_of _ _ _ rfl fun c _ => ?_
@@ -259,15 +265,21 @@ theorem c07_assert_not_regex : Correct "assert_not_regex" cond_assert_not_regex 
 
 theorem c07_assert_output : Correct "assert_output" cond_assert_output := by
   refine correct_of _ _ _ rfl fun c hc => ?_
-  unfold cond_assert_output
-  rw [eval_or_errors1 c _ hc]
-  exact evalOutcome_not c _ _ (eval_output_equality c)
+  first
+    | (unfold cond_assert_output
+       rw [eval_or_errors1 c _ hc]
+       exact evalOutcome_not c _ _ (eval_output_equality c))
+    -- the same condition without its own `errors(execution) or` (redundant under the guard)
+    | exact evalOutcome_not c _ _ (eval_output_equality c)
 
 theorem c07_assert_prints : Correct "assert_prints" cond_assert_prints := by
   refine correct_of _ _ _ rfl fun c hc => ?_
-  unfold cond_assert_prints
-  rw [eval_or_errors1 c _ hc]
-  exact evalOutcome_not c _ _ (eval_output_equality c)
+  first
+    | (unfold cond_assert_prints
+       rw [eval_or_errors1 c _ hc]
+       exact evalOutcome_not c _ _ (eval_output_equality c))
+    -- the same condition without its own `errors(execution) or` (redundant under the guard)
+    | exact evalOutcome_not c _ _ (eval_output_equality c)
 
 theorem c07_assert_not_output : Correct "assert_not_output" cond_assert_not_output := by
   refine correct_of _ _ _ rfl fun c _ => ?_
@@ -284,10 +296,14 @@ theorem c07_assert_not_output_contains : Correct "assert_not_output_contains" co
 
 theorem c07_assert_output_regex : Correct "assert_output_regex" cond_assert_output_regex := by
   refine correct_of _ _ _ rfl fun c hc => ?_
-  unfold cond_assert_output_regex
-  rw [eval_or_errors1 c _ hc]
-  have h := evalOutcome_pos c _ _ (eval_output_regex c).1
-  rwa [notR_notR] at h
+  first
+    | (unfold cond_assert_output_regex
+       rw [eval_or_errors1 c _ hc]
+       have h := evalOutcome_pos c _ _ (eval_output_regex c).1
+       rwa [notR_notR] at h)
+    -- the same condition without its own `errors(execution) or` (redundant under the guard)
+    | (have h := evalOutcome_pos c _ _ (eval_output_regex c).1
+       rwa [notR_notR] at h)
 
 theorem c07_assert_not_output_regex : Correct "assert_not_output_regex" cond_assert_not_output_regex := by
   refine correct_of _ _ _ rfl fun c _ => ?_
@@ -489,6 +505,72 @@ theorem c07_equality_symmetric (ex : Bool) (d : Int × Nat) (a e : PyVal)
 
 example : seqOnly (.list [.int 1, .tuple [.flt 3 1, .str [97]], .none]) = true := by decide
 
+/-- On values built from None, bools, ints, floats, ASCII strings, classes, objects, lists and tuples
+    `equality_test` (with a delta) always produces an answer: it never raises. -/
+theorem c07_equality_evaluable (ex : Bool) (d : Int × Nat) (a e : PyVal)
+    (ha : seqOnly a = true) (he : seqOnly e = true) : ∃ b, eqTest ex (some d) a e = .ok b :=
+  eqTest_ok_aux ex d _ a e (Nat.le_refl _) ha he
+
+/-! ## the open finding: two dicts whose key sets are equal only approximately -/
+
+/-- `{'A': 1}` -/
+def dictUpperA : PyVal := .dict [.str [65]] [.int 1]
+/-- `{'a': 1}` -/
+def dictLowerA : PyVal := .dict [.str [97]] [.int 1]
+
+/-- `equality_test({'A': 1}, {'a': 1}, False, delta)` raises: the key sets match after normalisation,
+    then `actual['a']` is a KeyError. -/
+theorem eqTest_dict_keys_raises (d : Int × Nat) :
+    eqTest false (some d) dictUpperA dictLowerA = .error .raised := by
+  have hn : normStr [65] = normStr [97] := by decide
+  unfold dictUpperA dictLowerA
+  rw [eqTest.eq_def]
+  simp [isFloat, isIntOrFloat, num?, pyEq, dictSub, dictHas, eqAllContained, eqContains, eqTest_str,
+    isAscii, hn, eqDictVals, eqDictLookup, dictMerge]
+
+/-- The property's sentence "an assertion and its negated counterpart never both pass or both fail
+    on evaluable operands" for the equality pair, in full: `==` can be evaluated for any two values
+    that are not errors, so for every such pair inside the modelled universe exactly one of
+    assert_equal / assert_not_equal is silent. -/
+def C07_equal_negation_exclusive_Full : Prop :=
+  ∀ c : Ctx, anyErr c = false → equalRel c ≠ .error .unmodelled →
+    (outcome wrapperGuard cond_assert_equal c = .silent ∧ outcome wrapperGuard cond_assert_not_equal c = .fires) ∨
+    (outcome wrapperGuard cond_assert_equal c = .fires ∧ outcome wrapperGuard cond_assert_not_equal c = .silent)
+
+/-- the operands of the counterexample: `assert_equal({'A': 1}, {'a': 1})`, default delta -/
+def dictKeysCtx : Ctx :=
+  { left := V.fresh dictUpperA, right := V.fresh dictLowerA, delta := .flt defaultDelta.1 defaultDelta.2 }
+
+/-- **Refuted in full** (open finding): on `{'A': 1}` vs `{'a': 1}` both assertions fail. -/
+theorem c07_equal_negation_exclusive_counterexample : ¬ C07_equal_negation_exclusive_Full := by
+  intro h
+  have hrel : equalRel dictKeysCtx = .error .raised := by
+    simp only [equalRel, dictKeysCtx, deltaOf, V.fresh, truthy]
+    exact eqTest_dict_keys_raises _
+  have hne : anyErr dictKeysCtx = false := rfl
+  obtain ⟨r1, h1, e1⟩ := c07_assert_equal
+  obtain ⟨r2, h2, e2⟩ := c07_assert_not_equal
+  cases h1; cases h2
+  have hq := h dictKeysCtx hne (by rw [hrel]; intro hh; cases hh)
+  rw [e1 dictKeysCtx, e2 dictKeysCtx] at hq
+  simp [specOutcome, hne, hrel, relOutcome, notR, Except.map] at hq
+
+/-- **The part that holds**: whenever `equality_test` produces an answer for the operands (always,
+    outside sets and dicts: `c07_equality_evaluable`), exactly one of the two is silent. -/
+theorem c07_equal_negation_exclusive_partial (c : Ctx) (hne : anyErr c = false) (b : Bool)
+    (hev : equalRel c = .ok b) :
+    (outcome wrapperGuard cond_assert_equal c = .silent ∧ outcome wrapperGuard cond_assert_not_equal c = .fires) ∨
+    (outcome wrapperGuard cond_assert_equal c = .fires ∧ outcome wrapperGuard cond_assert_not_equal c = .silent) :=
+  negation_exclusive_of _ _ _ _ _ rfl rfl c07_assert_equal c07_assert_not_equal c hne b hev
+
+/-- ... in particular for all scalar / list / tuple operands with a numeric delta, with no further
+    hypothesis. -/
+theorem c07_equal_negation_exclusive_seq (c : Ctx) (hne : anyErr c = false) (d : Int × Nat)
+    (hd : deltaOf c.delta = .ok (some d)) (hl : seqOnly c.left.v = true) (hr : seqOnly c.right.v = true) :
+    (outcome wrapperGuard cond_assert_equal c = .silent ∧ outcome wrapperGuard cond_assert_not_equal c = .fires) ∨
+    (outcome wrapperGuard cond_assert_equal c = .fires ∧ outcome wrapperGuard cond_assert_not_equal c = .silent) := by
+  obtain ⟨b, hb⟩ := c07_equality_evaluable (truthy c.exact) d c.left.v c.right.v hl hr
+  exact c07_equal_negation_exclusive_partial c hne b (by simp only [equalRel, hd, hb])
 /-! ## unit_test / assert_group -/
 
 theorem Group.foldl_add (outs : List Outcome) (g : Group) :
